@@ -670,6 +670,26 @@ pub open spec fn ev_covers<'i>(ev: Event<'i>, a: int, b: int) -> bool {
 pub open spec fn tok_covered<'i>(t: Token, evs: Seq<Event<'i>>, from: int) -> bool {
     (content_kind(t.kind) && cs(t) < t.span.e()) ==> exists|k: int| from <= k < evs.len() && ev_covers(#[trigger] evs[k], cs(t), t.span.e())
 }
+/// C05: event `ev` alone covers every token of `ts` that can hold a letter or digit
+pub open spec fn covered_by<'i>(ts: Seq<Token>, ev: Event<'i>) -> bool {
+    forall|i: int| 0 <= i < ts.len() && content_kind((#[trigger] ts[i]).kind) && cs(ts[i]) < ts[i].span.e() ==> ev_covers(ev, cs(ts[i]), ts[i].span.e())
+}
+pub proof fn lemma_covered_by_push<'i>(ts: Seq<Token>, ev: Event<'i>, evs: Seq<Event<'i>>, from: int)
+    requires covered_by(ts, ev), 0 <= from <= evs.len()
+    ensures covered(ts, ts.len() as int, evs.push(ev), from)
+{
+    assert forall|i: int| 0 <= i < ts.len() implies tok_covered(#[trigger] ts[i], evs.push(ev), from) by {
+        if content_kind(ts[i].kind) && cs(ts[i]) < ts[i].span.e() { assert(evs.push(ev)[evs.len() as int] == ev); }
+    }
+}
+pub proof fn lemma_covered_from<'i>(ts: Seq<Token>, upto: int, evs: Seq<Event<'i>>, from2: int, from1: int)
+    requires covered(ts, upto, evs, from2), from1 <= from2
+    ensures covered(ts, upto, evs, from1)
+{
+    assert forall|i: int| 0 <= i < upto implies tok_covered(#[trigger] ts[i], evs, from1) by {
+        assert(tok_covered(ts[i], evs, from2));
+    }
+}
 /// C05: every token before index `upto` is covered
 pub open spec fn covered<'i>(ts: Seq<Token>, upto: int, evs: Seq<Event<'i>>, from: int) -> bool {
     forall|i: int| 0 <= i < upto ==> tok_covered(#[trigger] ts[i], evs, from)
@@ -1160,6 +1180,8 @@ spec:
     ensures final(block).wf(), final(block).same(old(block)),
         // [C05] a section event is returned only when the whole block was consumed, and then nothing else is emitted
         r.is_some() ==> final(block).cur() == final(block).toks().len() && final(block).evs() == old(block).evs() && r.unwrap() is Section,
+        // [C05] a named section covers every letter and digit of the line (a blank name is dropped: see assumption on is_text_empty)
+        r.is_some() && r.unwrap()->name.is_some() ==> covered_by(final(block).toks(), r.unwrap()),
         // [C07] the only diagnostic is one warning, exactly when something follows the closing `=`s
         r.is_none() ==> (final(block).evs() == old(block).evs() || (final(block).evs().len() == old(block).evs().len() + 1 && final(block).evs().last() is Warning)),
         only_diags(final(block).evs(), old(block).evs()),
@@ -1169,6 +1191,28 @@ closure 1 `TokenKind` ret `b: bool`:
         ensures b == (t != TokenKind::Eq)
 closure 2 `TokenKind` ret `b: bool`:
         ensures b == (t == TokenKind::Eq)
+after `block.consume_while(|t| t == T![=]);`#0:
+    let ghost c1 = block.cur();
+after `let name = block.text(name_pos, name_tokens);`:
+    let ghost c2 = block.cur();
+after `block.consume_while(|t| t == T![=]);`#1:
+    let ghost c3 = block.cur();
+after `block.ws_comments();`:
+    let ghost c4 = block.cur();
+before `let name = if name.is_text_empty() {`:
+    proof {
+        let ts = block.toks();
+        assert(c4 == ts.len());
+        if !name.blank() {
+            let ev = Event::Section { name: Some(name) };
+            assert forall|i: int| 0 <= i < ts.len() && content_kind((#[trigger] ts[i]).kind) && cs(ts[i]) < ts[i].span.e() implies ev_covers(ev, cs(ts[i]), ts[i].span.e()) by {
+                if i < c1 { if i >= 1 { assert(old(block).rest_spec()[i] == ts[i]); assert(block.toks().subrange(1, ts.len() as int)[i - 1] == ts[i]); } }
+                else if i < c2 { assert(name_tokens@[i - c1] == ts[i]); }
+                else if i < c3 { assert(block.toks().subrange(c2, ts.len() as int)[i - c2] == ts[i]); }
+                else { assert(block.toks().subrange(c3, ts.len() as int)[i - c3] == ts[i]); }
+            }
+        }
+    }
 @*/
 } // verus!
 } // mod section
@@ -1189,11 +1233,23 @@ spec:
     ensures final(block).wf(), final(block).same(old(block)),
         // [C05] an entry is returned only when the whole block was consumed
         r.is_some() ==> final(block).cur() == final(block).toks().len() && r.unwrap() is Metadata,
+        r.is_some() ==> covered_by(final(block).toks(), r.unwrap()),      // [C05] key and value texts cover every letter and digit of the entry
         // [C07] at most one diagnostic is queued
         final(block).evs() == old(block).evs() || (final(block).evs().len() == old(block).evs().len() + 1 && (final(block).evs().last() is Warning || final(block).evs().last() is Error)),
         only_diags(final(block).evs(), old(block).evs()),
 closure 0 `TokenKind` ret `b: bool`:
         ensures b == (t == TokenKind::Colon)
+after `let key = block.text(key_pos, key_tokens);`:
+    let ghost kc = block.cur();
+before `Some(Event::Metadata { key, value })`:
+    proof {
+        let ts = block.toks();
+        let ev = Event::Metadata { key, value };
+        assert forall|i: int| 0 <= i < ts.len() && content_kind((#[trigger] ts[i]).kind) && cs(ts[i]) < ts[i].span.e() implies ev_covers(ev, cs(ts[i]), ts[i].span.e()) by {
+            if 1 <= i < kc { assert(key_tokens@[i - 1] == ts[i]); }
+            else if i > kc { assert(value_tokens@[i - kc - 1] == ts[i]); }
+        }
+    }
 @*/
 } // verus!
 } // mod metadata
@@ -1212,8 +1268,11 @@ spec:
     requires old(bp).wf(),
     ensures final(bp).wf(), final(bp).same(old(bp)),
         final(bp).cur() == final(bp).toks().len(),    // [C05] the whole block is consumed
+        ev_grown(final(bp).evs(), old(bp).evs()),
+after `bp.event(Event::Start(BlockKind::Text));`:
+    proof { lemma_grown_push(old(bp).evs(), Event::Start(BlockKind::Text)); }
 loop 0:
-        invariant bp.wf(), bp.same(old(bp)),
+        invariant bp.wf(), bp.same(old(bp)), ev_grown(bp.evs(), old(bp).evs()),
         decreases bp.toks().len() - bp.cur()
 before `let tokens = bp.capture_slice(|bp| {`:
         // (a closure inside a loop cannot use old() on its own &mut parameter in this Verus version:
@@ -1225,6 +1284,14 @@ closure 1 `&mut BlockParser` :
             pre.cur() < pre.toks().len() ==> final(bp).cur() > pre.cur()
 closure 2 `TokenKind` ret `b: bool`:
         ensures b == (t != TokenKind::Newline)
+after `let text = bp.text(start, tokens);`:
+        let ghost m = *bp;
+after `bp.event(Event::Text(text));`:
+            proof { lemma_grown_push(m.evs(), Event::Text(text)); lemma_grown_trans(bp.evs(), m.evs(), old(bp).evs()); }
+before `bp.event(Event::End(BlockKind::Text));`:
+    let ghost fin = *bp;
+after `bp.event(Event::End(BlockKind::Text));`:
+    proof { lemma_grown_push(fin.evs(), Event::End(BlockKind::Text)); lemma_grown_trans(bp.evs(), fin.evs(), old(bp).evs()); }
 @*/
 } // verus!
 } // mod text_block
@@ -1655,10 +1722,18 @@ spec:
         old(bp).toks().last().kind != TokenKind::Newline,    // [C03] block splitter trims trailing newlines
     ensures final(bp).wf(), final(bp).same(old(bp)),
         final(bp).cur() == final(bp).toks().len(),    // [C03] [C05] the whole block is consumed (finish() must not panic)
+        ev_grown(final(bp).evs(), old(bp).evs()),
+        // [C05] a block that is not a `>` text paragraph: every letter and digit is covered by an event of this call
+        old(bp).toks()[0].kind != TokenKind::TextStep ==> covered(final(bp).toks(), final(bp).toks().len() as int, final(bp).evs(), old(bp).evs().len() as int),
 closure 0 `&Token` ret `b: bool`:
         ensures b == (t.kind != TokenKind::Newline)
 closure 1 `&Token` ret `b: bool`:
         ensures b == empty_kind(t.kind)
+before `bp.consume_rest();`:
+        proof {
+            lemma_grown_refl(bp.evs());
+            assert forall|i: int| 0 <= i < bp.toks().len() implies tok_covered(#[trigger] bp.toks()[i], bp.evs(), bp.evs().len() as int) by { assert(empty_kind(bp.toks()[i].kind)); }
+        }
 @*/
 /*@ fn src/parser/mod.rs parse_block
 tags C03 C05 C02
@@ -1668,11 +1743,30 @@ spec:
         old(block).toks().last().kind != TokenKind::Newline,
     ensures final(block).wf(), final(block).same(old(block)),
         final(block).cur() == final(block).toks().len(),    // [C03] [C05] the whole block is consumed (finish() must not panic)
+        ev_grown(final(block).evs(), old(block).evs()),
+        // [C05] every letter and digit of the block lies in the span of an event queued by this call, except in a `>` text
+        //       paragraph and in a section whose name is blank (both drop blank texts: assumption on Text::is_text_empty)
+        old(block).toks()[0].kind != TokenKind::TextStep && !(final(block).evs().last() is Section && final(block).evs().last()->name.is_none())
+            ==> covered(final(block).toks(), final(block).toks().len() as int, final(block).evs(), old(block).evs().len() as int),     // [C05]
 before `let meta_or_section = match block.peek() {`:
     let ghost pre = *block;
 ?closure 0 `&mut BlockParser<'_, '_>` ret `o: Option<Event<'_>>`:
         requires *old(bp) == pre, pre.wf(), pre.cur() == 0
-        ensures final(bp).wf(), final(bp).same(&pre), o.is_some() ==> final(bp).cur() == final(bp).toks().len()
+        ensures final(bp).wf(), final(bp).same(&pre), o.is_some() ==> final(bp).cur() == final(bp).toks().len(),
+            only_diags(final(bp).evs(), pre.evs()), o.is_some() ==> covered_by(pre.toks(), o.unwrap()),
+before `if let Some(ev) = meta_or_section {`:
+    let ghost mid = *block;
+    proof { assert(only_diags(mid.evs(), pre.evs())); }
+after `block.event(ev);`:
+        proof {
+            lemma_grown_push(mid.evs(), ev); lemma_grown_trans(block.evs(), mid.evs(), pre.evs());
+            if !(ev is Section && ev->name.is_none()) { lemma_covered_by_push(block.toks(), ev, mid.evs(), pre.evs().len() as int); }
+        }
+after `parse_multiline_block(block);`:
+        proof {
+            lemma_grown_trans(block.evs(), mid.evs(), pre.evs());
+            if pre.toks()[0].kind != TokenKind::TextStep { lemma_covered_from(block.toks(), block.toks().len() as int, block.evs(), mid.evs().len() as int, pre.evs().len() as int); }
+        }
 @*/
 } // verus!
 } // mod parser_fns
